@@ -2,14 +2,14 @@ from checks import pipeseq as ps
 
 CLAIM = {
     "text": "Bounded model checking of real one-to-one pipes (idem, skip, htons, setattr, setflowdef, probe_uref, delay, match_attr) and "
-            "the null sink under every listed interleaving of several inputs with control operations (output switched, disconnected, "
+            "the null sink, plus a buffering pipe assembled in the harness from the real upipe_helper_input.h / upipe_helper_output.h macros (hold while the downstream is blocked, held buffers first and in arrival order once unblocked, freed on flush / release), under every listed interleaving of several inputs with control operations (output switched, disconnected, "
             "reconnected; sink starting/stopping to refuse the flow definition; flush; release). Online monitors at the recording sinks: "
             "every delivered buffer is one of the buffers handed to the pipe, not delivered before, in input order (no duplication, "
             "invention or reordering), delivered only to the connected output; its payload (3 symbolic octets) is unchanged but for the "
             "documented transformation (skip: configured prefix removed; htons: 16-bit words swapped); whatever is not forwarded is freed "
             "by the pipe (CBMC memory-leak check on every query) and nothing is freed twice or used after free (CBMC pointer checks).",
     "note": "Trusted: as C04. Bounds: up to 4 buffers per history, histories of 5-6 operations, single-segment 3-octet buffers. "
-            "Not covered: upipe_dup (sub-pipes), the hold/unblock path of upipe_helper_input (queue sink), chains of several pipes, "
+            "Not covered: upipe_dup (sub-pipes), upipe_queue_sink itself, chains of several pipes, "
             "attribute preservation (the dictionary is forwarded as the same object; its content is C10's subject).",
     "technique": "CBMC bounded model checking of real C pipes with online conservation/order monitors and memory-leak check; complete "
                  "enumeration of operation sequences within the stated alphabet/length, symbolic payloads",
@@ -20,15 +20,21 @@ def build(tier):
     quick = tier == "quick"
     qs = []
     ctl = [6, 4, 5, 8, 9, 7]
+    # helper_input hold path: 4 buffers held while the downstream is blocked, then credits / drains in every order
+    hold_q = [[0, 3, 6, 6, 6, 6] + t for t in ps.seqs([11, 12, 13], 4, must=(12,))] + \
+        [[0, 3, 6, 6, 11, 12, 6, 6, 13, 12], [0, 3, 13, 6, 6, 6, 12, 11, 12, 7], [0, 3, 6, 6, 5, 12, 3, 13, 12], [0, 3, 6, 6, 6, 7, 13, 12, 6]]
+    hold_t = [[0, 3] + [6] * n + t for n in (2, 3, 4) for k in (3, 4, 5) for t in ps.seqs([11, 12, 13], k, must=(12,))] + \
+        [[0, 3, 6, 6] + t for t in ps.seqs([11, 12, 13, 6, 7], 4, must=(12,))]
     if quick:
         plan = [(1, [[0, 3] + t for t in ps.seqs(ctl, 4, last=(6,), min_count={6: 2})]),
                 (2, [[0, 3] + t for t in ps.seqs([6, 4, 8], 3, last=(6,), must=(6,))] + [[0, 3, 6, 6, 6, 6]]),
                 (7, [[0, 3] + t for t in ps.seqs([6, 4, 5], 3, last=(6,), must=(6,))]),
-                (8, [[0, 6, 6], [6, 0, 6, 7, 6]])]
+                (8, [[0, 6, 6], [6, 0, 6, 7, 6]]),
+                (11, hold_q)]
     else:
         big = [[0, 3] + t for t in ps.seqs(ctl + [3, 1], 4, min_count={6: 2})] + [[3, 0] + t for t in ps.seqs(ctl, 4, last=(6,), min_count={6: 2})]
         mid = [[0, 3] + t for t in ps.seqs(ctl, 4, last=(6,), min_count={6: 2})]
-        plan = [(1, big)] + [(p, mid) for p in (2, 3, 4, 5, 6, 7, 9)] + [(8, [[0] + t for t in ps.seqs([6, 7, 1], 3, must=(6,))])]
+        plan = [(1, big)] + [(p, mid) for p in (2, 3, 4, 5, 6, 7, 9)] + [(8, [[0] + t for t in ps.seqs([6, 7, 1], 3, must=(6,))]), (11, hold_q + hold_t)]
     for pipe, sq in plan:
         for i, ops in enumerate(sq):
             qs.append(ps.query("C05", pipe, ops, timeout=280 if quick else 900, sample=(i % 40 == 7), replay=(i % 50 == 7),
@@ -41,6 +47,6 @@ def build(tier):
             "rule": "every interleaving of the stated length over the stated alphabet with at least two inputs is one query",
             "assumptions": ps.COMMON_ASSUME + ["buffers dropped because no accepting output is connected are not 'lost' (documented behaviour of the output helper); "
                                                "they must be freed (leak check) and may not be delivered later"],
-            "outside": ["upipe_dup and other split pipes", "held-input path of upipe_helper_input / queue sink (see C06)", "chains of pipes",
+            "outside": ["upipe_dup and other split pipes", "the queue sink itself (its use of the hold helper is covered through the helper-built pipe)", "chains of pipes",
                         "segmented payloads"]}
     return qs, meta
